@@ -679,6 +679,48 @@ func max(a, b int) int {
 	return b
 }
 
+// a set of rules forming extends / fallback graphs with cycles: a ring of
+// 2-4 styles extending each other, styles extending into the ring, and
+// fallback loops; every rule carries descriptors that show who inherited what.
+func genGraphSet(r *vlib.Rng) ([]ruleGen, string) {
+	n := r.Range(2, 4)
+	var rules []ruleGen
+	var sb strings.Builder
+	decor := func(i int) string {
+		var d []string
+		if r.Chance(1, 2) {
+			d = append(d, fmt.Sprintf("pad: %d %s", r.Range(2, 5), cssString(string(rune('p'+i)))))
+		}
+		if r.Chance(1, 3) {
+			d = append(d, fmt.Sprintf("prefix: %s", cssString(string(rune('A'+i)))))
+		}
+		if r.Chance(1, 3) {
+			d = append(d, fmt.Sprintf("negative: %s", cssString(string(rune('m'+i)))))
+		}
+		if r.Chance(1, 3) {
+			lo := r.Range(-3, 5)
+			d = append(d, fmt.Sprintf("range: %d %d", lo, lo+r.Range(0, 6)))
+		}
+		if r.Chance(1, 3) {
+			d = append(d, "fallback: "+vlib.Pick(r, []string{"s0", "s1", "s2", "s3", "s4", "s5", "lower-roman", "nope"}))
+		}
+		return strings.Join(d, "; ")
+	}
+	add := func(name, body string) {
+		text := fmt.Sprintf("@counter-style %s { %s }", name, body)
+		rules = append(rules, ruleGen{name: name, text: text})
+		sb.WriteString(text + "\n")
+	}
+	for i := 0; i < n; i++ { // the ring s0 -> s1 -> ... -> s0
+		add(fmt.Sprintf("s%d", i), fmt.Sprintf("system: extends s%d; %s", (i+1)%n, decor(i)))
+	}
+	// a style extending into the ring, one extending an unknown style, a base style with a fallback loop
+	add("s4", fmt.Sprintf("system: extends s%d; %s", r.Intn(n), decor(4)))
+	add("s5", fmt.Sprintf("system: extends %s; %s", vlib.Pick(r, []string{"nope", "s4", "s6"}), decor(5)))
+	add("s6", fmt.Sprintf("system: fixed %d; symbols: a b c; fallback: %s", r.Range(-2, 3), vlib.Pick(r, []string{"s6", "s4", "s5", "s0"})))
+	return rules, sb.String()
+}
+
 // a set of rules with distinct names
 func genRuleSet(r *vlib.Rng, malformed bool) ([]ruleGen, string) {
 	n := r.Range(1, 6)
@@ -876,7 +918,7 @@ func docCase(w *vlib.Writer, kind, htmlText string, tags []string) {
 var counterNames = []string{"a", "b", "c", "list-item"}
 var docStyles = []string{"decimal", "lower-roman", "upper-alpha", "decimal-leading-zero", "disc", "lower-greek", "hebrew", "cjk-decimal", "georgian", "s0", "s1", "s2"}
 
-func genCints(r *vlib.Rng, withValues bool) string {
+func genCints(r *vlib.Rng, withValues bool, big bool) string {
 	n := r.Range(1, 2)
 	var parts []string
 	for i := 0; i < n; i++ {
@@ -887,7 +929,10 @@ func genCints(r *vlib.Rng, withValues bool) string {
 		if withValues && r.Chance(2, 3) {
 			v := r.Range(-4, 12)
 			if r.Chance(1, 25) {
-				v = vlib.Pick(r, []int{1 << 24, -(1 << 24), 2147483647, -2147483648, 3999, 4000})
+				v = vlib.Pick(r, []int{3999, 4000, -4000})
+				if big {
+					v = vlib.Pick(r, []int{1 << 24, -(1 << 24), 2147483647, -2147483648, 3999, 4000})
+				}
 			}
 			parts = append(parts, fmt.Sprintf("%s %d", name, v))
 		} else {
@@ -905,9 +950,16 @@ func genContent(r *vlib.Rng, big bool) string {
 		case r.Chance(1, 10):
 			return ", " + cssString(vlib.Pick(r, []string{"*", "§", "none"}))
 		case r.Chance(1, 8):
-			return ", symbols(" + vlib.Pick(r, []string{"cyclic", "numeric", "alphabetic", "symbolic", "fixed", ""}) + ` "x" "y" "z")`
+			systems := []string{"cyclic", "numeric", "alphabetic", "symbolic", "fixed", ""}
+			if big { // a symbolic style repeats its symbol value/3 times: not with huge counter values
+				systems = systems[:3]
+			}
+			return ", symbols(" + vlib.Pick(r, systems) + ` "x" "y" "z")`
 		case r.Chance(1, 20):
 			return ", none"
+		}
+		if big {
+			return ", " + vlib.Pick(r, docStyles[:9]) // predefined styles only
 		}
 		return ", " + vlib.Pick(r, docStyles)
 	}
@@ -932,7 +984,10 @@ func genContent(r *vlib.Rng, big bool) string {
 func genDoc(r *vlib.Rng) string {
 	var sb strings.Builder
 	sb.WriteString("<style>\n")
-	if r.Chance(1, 2) {
+	// huge counter values only in documents without author-defined / symbolic styles
+	// (a symbolic or additive style repeats its symbols value/weight times)
+	big := r.Chance(1, 5)
+	if !big && r.Chance(1, 2) {
 		rules, text := genRuleSet(r, false)
 		_ = rules
 		sb.WriteString(text)
@@ -940,39 +995,39 @@ func genDoc(r *vlib.Rng) string {
 	// classes
 	nr := r.Range(2, 4)
 	for i := 0; i < nr; i++ {
-		fmt.Fprintf(&sb, ".r%d { counter-reset: %s }\n", i, genCints(r, true))
+		fmt.Fprintf(&sb, ".r%d { counter-reset: %s }\n", i, genCints(r, true, big))
 	}
 	for i := 0; i < 2; i++ {
-		fmt.Fprintf(&sb, ".s%d { counter-set: %s }\n", i, genCints(r, true))
+		fmt.Fprintf(&sb, ".s%d { counter-set: %s }\n", i, genCints(r, true, big))
 	}
 	for i := 0; i < 3; i++ {
 		if r.Chance(1, 8) {
 			fmt.Fprintf(&sb, ".i%d { counter-increment: none }\n", i)
 		} else {
-			fmt.Fprintf(&sb, ".i%d { counter-increment: %s }\n", i, genCints(r, true))
+			fmt.Fprintf(&sb, ".i%d { counter-increment: %s }\n", i, genCints(r, true, big))
 		}
 	}
 	sb.WriteString(".n { display: none }\n.li { display: list-item }\n.bl { display: block }\n.il { display: inline }\n")
 	for i := 0; i < 3; i++ {
 		extra := ""
 		if r.Chance(1, 4) {
-			extra = "counter-increment: " + genCints(r, true) + "; "
+			extra = "counter-increment: " + genCints(r, true, big) + "; "
 		} else if r.Chance(1, 6) {
-			extra = "counter-reset: " + genCints(r, true) + "; "
+			extra = "counter-reset: " + genCints(r, true, big) + "; "
 		} else if r.Chance(1, 10) {
-			extra = "counter-set: " + genCints(r, true) + "; "
+			extra = "counter-set: " + genCints(r, true, big) + "; "
 		}
-		fmt.Fprintf(&sb, ".b%d::before { %scontent: %s }\n", i, extra, genContent(r, false))
+		fmt.Fprintf(&sb, ".b%d::before { %scontent: %s }\n", i, extra, genContent(r, big))
 	}
 	for i := 0; i < 2; i++ {
 		extra := ""
 		if r.Chance(1, 4) {
-			extra = "counter-increment: " + genCints(r, true) + "; "
+			extra = "counter-increment: " + genCints(r, true, big) + "; "
 		}
-		fmt.Fprintf(&sb, ".a%d::after { %scontent: %s }\n", i, extra, genContent(r, false))
+		fmt.Fprintf(&sb, ".a%d::after { %scontent: %s }\n", i, extra, genContent(r, big))
 	}
 	if r.Chance(1, 5) {
-		fmt.Fprintf(&sb, "li::marker { content: %s }\n", genContent(r, false))
+		fmt.Fprintf(&sb, "li::marker { content: %s }\n", genContent(r, big))
 	}
 	if r.Chance(1, 4) {
 		fmt.Fprintf(&sb, "ol { list-style-type: %s }\n", vlib.Pick(r, append([]string{`"→"`, `symbols(cyclic "◆" "◇")`, "none"}, docStyles...)))
@@ -1010,7 +1065,7 @@ func genDoc(r *vlib.Rng) string {
 				attr = fmt.Sprintf(` class="%s"`, strings.Join(cls, " "))
 			}
 			if r.Chance(1, 10) {
-				attr += fmt.Sprintf(` style="counter-reset: %s"`, genCints(r, true))
+				attr += fmt.Sprintf(` style="counter-reset: %s"`, genCints(r, true, big))
 			}
 			fmt.Fprintf(&sb, "<%s%s>", tag, attr)
 			if r.Chance(1, 3) {
@@ -1138,6 +1193,10 @@ func main() {
 		case k < 8: // (a2) generated rule sets, rendering
 			malformed := r.Chance(1, 4)
 			rules, text := genRuleSet(r, malformed)
+			if r.Chance(1, 8) {
+				malformed = false
+				rules, text = genGraphSet(r)
+			}
 			cs := tableOf(text)
 			for _, rule := range rules {
 				if _, ok := cs[rule.name]; !ok && r.Chance(2, 3) {
